@@ -786,6 +786,34 @@ func timeoutSemaphoreRule(p *Prog, r *Report) {
 					nrel++
 					// the release sits in code that has run the wrapped handler first
 					hit, path := reachAvoiding(fn, nil, func(i ssa.Instruction) bool { return i == ssa.Instruction(w) }, isHandlerCall, nil)
+					// a release inside a closure that its parent defers runs when the parent ends: it is fine when that
+					// parent is the function that runs the wrapped handler (and not the wrapper that took the slot)
+					if hit != nil && fn.Parent() != nil {
+						par := fn.Parent()
+						deferred, callsHandler, acquires := false, false, false
+						for _, pb := range par.Blocks {
+							for _, pi := range pb.Instrs {
+								if d, ok := pi.(*ssa.Defer); ok {
+									if mc, ok := d.Call.Value.(*ssa.MakeClosure); ok && mc.Fn == ssa.Value(fn) {
+										deferred = true
+									}
+								}
+								if isHandlerCall(pi) {
+									callsHandler = true
+								}
+								if sel, ok := pi.(*ssa.Select); ok {
+									for _, st := range sel.States {
+										if st.Dir == types.SendOnly && isSem(st.Chan, par, 0) {
+											acquires = true
+										}
+									}
+								}
+							}
+						}
+						if deferred && callsHandler && !acquires {
+							hit, path = nil, nil
+						}
+					}
 					r.Check("R6", fmt.Sprintf("%s: the handler slot is given back only after the wrapped handler returned", funcName(fn)), hit == nil, p.Pos(w.Pos()),
 						"the receive that frees the slot is reachable without the wrapped handler having been called in this function: the slot is freed while the handler may still run (a timed-out handler is no longer counted, so more than Concurrency of them run and excess calls are not answered 429)", blocksString(p, path)...)
 					// and exactly once: no second release on any path after it
@@ -829,7 +857,8 @@ func closeTokenRule(p *Prog, r *Report) {
 			}
 			n++
 			exact := f.Pkg != nil && f.Pkg.Pkg.Path() == "bytes" && f.Name() == "Equal"
-			tolerant := inModule(f) && (f.Name() == "caseInsensitiveCompare" || f.Name() == "hasHeaderValue")
+			tolerant := inModule(f) && (f.Name() == "caseInsensitiveCompare" || f.Name() == "hasHeaderValue") ||
+				(f.Pkg != nil && f.Pkg.Pkg.Path() == "bytes" && f.Name() == "EqualFold")
 			r.Check("R4", fmt.Sprintf("%s: the value is matched against the 'close' token case-insensitively (%s)", funcName(fn), shortType(calleeName(c))), !exact && tolerant, p.Pos(c.Pos()),
 				"an exact byte comparison with 'close': 'Connection: Close' (or a token list containing close) is not recognised, so the connection is kept although the peer announced it will close it, or asked for it to be closed")
 		})
@@ -886,6 +915,21 @@ func doneChannelRule(p *Prog, r *Report) {
 					}
 					ndrop++
 					hit, path := reachAvoiding(fn, in, isReturn, func(i ssa.Instruction) bool { return isFlagStore(i, "false") }, nil)
+					if hit != nil {
+						// the two stores may come in either order: a lowering of the flag that dominates the drop,
+						// with no raising of it in between, is as good
+						for _, bb := range fn.Blocks {
+							for _, i0 := range bb.Instrs {
+								if isFlagStore(i0, "false") && dominatesInstr(i0, in) {
+									if h2, _ := reachAvoiding(fn, i0, func(i ssa.Instruction) bool { return i == in }, func(i ssa.Instruction) bool { return isFlagStore(i, "true") }, nil); h2 != nil {
+										if h3, _ := reachAvoiding(fn, i0, func(i ssa.Instruction) bool { return isFlagStore(i, "true") }, func(i ssa.Instruction) bool { return i == in }, nil); h3 == nil {
+											hit, path = nil, nil
+										}
+									}
+								}
+							}
+						}
+					}
 					r.Check("R6", funcName(fn)+": dropping the Done channel lowers the 'already closed' flag on every path", hit == nil, p.Pos(w.Pos()),
 						"s.done is set to nil and a return is reachable without s.doneClosed = false: after the next Serve the flag still says 'closed', so the next Shutdown never closes the new channel and RequestCtx.Done() of in-flight requests stays open", blocksString(p, path)...)
 				}
